@@ -69,7 +69,11 @@ def check_sinusoid(ctx, case):
     ctx.case(digest(method, sr, n, f, A, ph0, ncol), True)
     sr_arg = present_scalar(sr, case.get('sr_form', 'float'))
     ctx.count('sample_rate_passed_as:' + case.get('sr_form', 'float'))
-    IP, IF, IA = SP.frequency_transform(X.copy(), sr_arg, method)
+    Xin = X.copy()
+    if ncol == 1 and case.get('as_vector'):
+        Xin = Xin[:, 0]                      # one IMF handed over as a plain vector: the outputs are [samples x 1] all the same
+        ctx.count('single_imf_passed_as_vector')
+    IP, IF, IA = SP.frequency_transform(Xin, sr_arg, method)
     if not (np.all(np.isfinite(IP)) and np.all(np.isfinite(IF)) and np.all(np.isfinite(IA))):
         ctx.violation('non-finite:' + method, 'frequency_transform(%s) returned non-finite values for a finite sinusoid (%d non-finite amplitudes)'
                       % (method, int((~np.isfinite(IA)).sum())), case)
@@ -225,7 +229,7 @@ def gen_case(rng):
             sub = {'subnormal': True}
         return {'kind': 'sin', 'method': gens.pick(rng, ['hilbert', 'nht', 'quad']), 'sr': sr, 'n': n, 'f': float(cyc * sr / n),
                 'A': float(10 ** rng.uniform(-1.5, 1.5)), 'ph0': float(rng.uniform(0, 2 * np.pi)), 'ncol': int(rng.integers(1, 4)), 'c': c,
-                'sr_form': gens.pick(rng, SR_FORMS), 'exact_zeros': (int(rng.integers(1, 3)) if rng.random() < .12 else 0), **sub}
+                'sr_form': gens.pick(rng, SR_FORMS), 'exact_zeros': (int(rng.integers(1, 3)) if rng.random() < .12 else 0), 'as_vector': bool(rng.random() < .5), **sub}
     if r < .75:
         sr = float(gens.pick(rng, [1, 100, 512]))
         n = int(gens.pick(rng, [256, 512, 1000]))
